@@ -145,17 +145,6 @@ theorem mem_setSessions {l : List (Nat × List Nat)} {i : Nat} {x : List Nat} {q
     · exact ⟨q, h2, by rw [if_neg h1]⟩
     · exact ⟨(i, y), hy, by simp⟩
 
-theorem setSessions_map_fst (l : List (Nat × List Nat)) (i : Nat) (x : List Nat) :
-    (setSessions l i x).map (·.1) = l.map (·.1) := by
-  unfold setSessions
-  rw [List.map_map]
-  apply List.map_congr_left
-  intro p _
-  simp only [Function.comp]
-  split
-  · rename_i hp; exact hp.symm
-  · rfl
-
 /-! ### accepted monitor steps -/
 
 theorem monRun_single {cfg : MonCfg} {m m' : MonState} {e : CEv} (h : monStep cfg m e = .ok m') :
